@@ -421,6 +421,23 @@ PROPS["C30"] = {
     "assumptions": ["hang verdicts are taken at quiescence of the deterministic scheduler (no wall clock)"],
 }
 
+PROPS["C36"] = {
+    "level": "exploration",
+    "plan": zb_plan(("release", "miri")),
+    "rule": ("histories of 5..30 (10..60 thorough) steps on a bus connection (full client handshake + Hello against the scripted bus) over 3 names: "
+             "request_name_with_flags with all 8 flag subsets, release_name, the bus granting a queued name (NameAcquired, also right "
+             "behind the InQueue reply), the bus replacing the connection as owner (NameLost, re-queued unless DoNotQueue), look-alike "
+             "NameAcquired/NameLost sent by another peer straight to the connection, unrelated driver signals; the bus answers 1/2/3 by "
+             "PRNG for names it does not hold for the connection and 4/2 for those it does; every request/release result is compared "
+             "with what the bus holds at that moment, and a successful release must have reached the bus; 11 directed histories first; "
+             "distinct = distinct (history, schedule)"),
+    "gates": {"quick": {"evaluations": 2500, "distinct": 2000, "requests_checked": 10000, "releases_checked": 6000, "class:forged-signal": 4000,
+                        "class:driver-NameLost": 700, "class:driver-NameAcquired": 400, "class:request-answered-locally": 3000},
+              "thorough": {"evaluations": 100000, "distinct": 80000}},
+    "assumptions": ["the scripted bus follows dbus-daemon's rules: NameAcquired precedes the reply that grants a name, a replaced owner is re-queued unless it asked DoNotQueue, a repeated RequestName updates the remembered flags",
+                    "operations are issued at quiescent points (results of requests racing with ownership signals are ambiguous and not generated)"],
+}
+
 PROPS["C38"] = {
     "level": "fault_enumeration",
     "plan": zb_plan(("release", "asan")),
